@@ -6,6 +6,7 @@ import JSV.Model.Unmarshal
 import JSV.Model.Resolve
 import JSV.Model.Validate
 import JSV.Spec.Valid
+import JSV.Model.Guarded
 
 open JSV Driver
 
@@ -124,6 +125,60 @@ def mkSpecEnv (u : Universe) (rs : Go.Resolved) : Spec.Env :=
 
 def hList (u : Universe) : Lean.Json := .arr (if u.folded then #[.str "D4"] else #[])
 
+def handleValidate (args : Lean.Json) : Except String Lean.Json := do
+  let base := ((getArg args "base").getStr?).toOption.getD ""
+  match ← buildUniverse args with
+  | .ok u =>
+    -- instances: "insts" = list of tagged JSON values, or "ginsts" = list of value descriptors
+    let jinsts : List Json ←
+      match getArg args "insts" with
+      | .arr js => js.toList.mapM decodeJson
+      | _ => pure []
+    let insts : List GoVal ←
+      match getArg args "ginsts" with
+      | .arr gs => gs.toList.mapM decodeGoVal
+      | _ => pure (jinsts.map GoVal.ofJson)
+    match doResolve u base with
+    | .ok rs =>
+      let env := mkVEnv u rs
+      if !Go.guarded env then
+        return Lean.Json.mkObj [("model", outcome "fuel" [("why", "in-place reference cycle")]), ("H", hList u)]
+      let verdicts := insts.map fun g =>
+        match Go.validate env Generated.supportedVersions validateFuelN rs.root g with
+        | .ok _ => "valid"
+        | .err => "invalid"
+        | .panic => "panic"
+        | .fuel => "fuel"
+      let senv := mkSpecEnv u rs
+      let specInsts : List (Option Json) :=
+        if jinsts.isEmpty then insts.map GoVal.denote else jinsts.map some
+      let rootOk := match u.st.get? rs.root with
+        | some rn => Generated.supportedVersions.contains rn.schema
+        | none => false
+      let specVerdicts := specInsts.map fun oj =>
+        match oj with
+        | none => "n/a"
+        | some j =>
+          if !rootOk then "invalid" else
+          match Spec.valid senv validateFuelN rs.root j with
+          | some true => "valid"
+          | some false => "invalid"
+          | none => "undefined"
+      pure (Lean.Json.mkObj [
+        ("spec", .arr (specVerdicts.map str).toArray),
+        ("model", outcome "resolved" [
+          ("verdicts", .arr (verdicts.map str).toArray),
+          ("log", .arr (rs.log.map str).toArray),
+          ("draft", str (if rs.draft == .d7 then "draft7" else "draft2020")),
+          ("targets", targetsJson u.st rs)]),
+        ("H", hList u)])
+    | .err => pure (Lean.Json.mkObj [("model", outcome "resolve-error"), ("H", hList u)])
+    | .panic => pure (Lean.Json.mkObj [("model", outcome "panic"), ("H", hList u)])
+    | .fuel => pure (Lean.Json.mkObj [("model", outcome "fuel"), ("H", hList u)])
+  | .err => pure (Lean.Json.mkObj [("model", outcome "unmarshal-error")])
+  | .panic => pure (Lean.Json.mkObj [("model", outcome "panic")])
+  | .fuel => pure (Lean.Json.mkObj [("model", outcome "fuel")])
+
 def handle (op : String) (args : Lean.Json) : Except String Lean.Json := do
   match op with
   | "equal" =>
@@ -136,57 +191,11 @@ def handle (op : String) (args : Lean.Json) : Except String Lean.Json := do
     pure (Lean.Json.mkObj [
       ("model", resToJson (fun b => Lean.Json.mkObj [("outcome", "ok"), ("equal", .bool b)]) r),
       ("spec", spec)])
-  | "validate" =>
-    let base := ((getArg args "base").getStr?).toOption.getD ""
-    match ← buildUniverse args with
-    | .ok u =>
-      -- instances: "insts" = list of tagged JSON values, or "ginsts" = list of value descriptors
-      let jinsts : List Json ←
-        match getArg args "insts" with
-        | .arr js => js.toList.mapM decodeJson
-        | _ => pure []
-      let insts : List GoVal ←
-        match getArg args "ginsts" with
-        | .arr gs => gs.toList.mapM decodeGoVal
-        | _ => pure (jinsts.map GoVal.ofJson)
-      match doResolve u base with
-      | .ok rs =>
-        let env := mkVEnv u rs
-        let verdicts := insts.map fun g =>
-          match Go.validate env Generated.supportedVersions validateFuelN rs.root g with
-          | .ok _ => "valid"
-          | .err => "invalid"
-          | .panic => "panic"
-          | .fuel => "fuel"
-        let senv := mkSpecEnv u rs
-        let specInsts : List (Option Json) :=
-          if jinsts.isEmpty then insts.map GoVal.denote else jinsts.map some
-        let rootOk := match u.st.get? rs.root with
-          | some rn => Generated.supportedVersions.contains rn.schema
-          | none => false
-        let specVerdicts := specInsts.map fun oj =>
-          match oj with
-          | none => "n/a"
-          | some j =>
-            if !rootOk then "invalid" else
-            match Spec.valid senv validateFuelN rs.root j with
-            | some true => "valid"
-            | some false => "invalid"
-            | none => "undefined"
-        pure (Lean.Json.mkObj [
-          ("spec", .arr (specVerdicts.map str).toArray),
-          ("model", outcome "resolved" [
-            ("verdicts", .arr (verdicts.map str).toArray),
-            ("log", .arr (rs.log.map str).toArray),
-            ("draft", str (if rs.draft == .d7 then "draft7" else "draft2020")),
-            ("targets", targetsJson u.st rs)]),
-          ("H", hList u)])
-      | .err => pure (Lean.Json.mkObj [("model", outcome "resolve-error"), ("H", hList u)])
-      | .panic => pure (Lean.Json.mkObj [("model", outcome "panic"), ("H", hList u)])
-      | .fuel => pure (Lean.Json.mkObj [("model", outcome "fuel"), ("H", hList u)])
-    | .err => pure (Lean.Json.mkObj [("model", outcome "unmarshal-error")])
-    | .panic => pure (Lean.Json.mkObj [("model", outcome "panic")])
-    | .fuel => pure (Lean.Json.mkObj [("model", outcome "fuel")])
+  | "validate" => handleValidate args
+  | "decorate" =>
+    let ra ← handleValidate args
+    let rb ← handleValidate (args.setObjVal! "schema" (getArg args "schema2"))
+    pure (Lean.Json.mkObj [("model", Lean.Json.mkObj [("outcome", "pair"), ("a", ra), ("b", rb)])])
   | "uri" =>
     let base := ((getArg args "base").getStr?).toOption.getD ""
     let ref := ((getArg args "ref").getStr?).toOption.getD ""
